@@ -98,6 +98,9 @@ def obligations(tier, seed):
                                           'au::detail::get_value_result<float>(au::pow<-60>(au::mag<10>())).value > 0.0f)', 1),
               ('val_f64_1e_m400_not_zero', '(au::detail::get_value_result<double>(au::pow<-400>(au::mag<10>())).outcome != au::detail::MagRepresentationOutcome::OK || '
                                            'au::detail::get_value_result<double>(au::pow<-400>(au::mag<10>())).value > 0.0)', 1),
+              ('rep_f32_subnormal', 'au::representable_in<float>(au::mag<3>() * au::pow<-130>(au::mag<2>()))', 1),
+              ('val_f32_subnormal', '(au::get_value<float>(au::mag<3>() * au::pow<-130>(au::mag<2>())) == (3.0f * std::numeric_limits<float>::min()) / 16.0f)', 1),
+              ('rep_f64_subnormal', 'au::representable_in<double>(au::mag<3>() * au::pow<-1030>(au::mag<2>()))', 1),
               ('val_f32_1e_m30_positive', '(au::get_value<float>(au::pow<-30>(au::mag<10>())) > 0.0f)', 1)]
     facts += [('rep_u64_2_64', 'au::representable_in<uint64_t>(au::pow<64>(au::mag<2>()))', 0), ('rep_u64_2_63', 'au::representable_in<uint64_t>(au::pow<63>(au::mag<2>()))', 1),
               ('rep_i64_2_63', 'au::representable_in<int64_t>(au::pow<63>(au::mag<2>()))', 0),
